@@ -2,6 +2,7 @@
 from props import _civ
 import cplx_iv_ops as CI
 import iv_fun_ops as IVF
+import iv_cgamma_ops  # noqa  (registers the gamma-family functions of iv.mpc in iv_fun_ops)
 
 LEVEL = "proof"
 LEAN_MODULES = ["Props.C14", "Props.C15", "Props.C14fun"]
@@ -13,10 +14,23 @@ ASSUMPTIONS = ["mpci_* arithmetic is modelled bit-exactly in Lean on top of the 
                "interval arithmetic in Python (e^x cos y + i e^x sin y; cos x cosh y - i sin x sinh y; sin x cosh y + i cos x sinh y; "
                "(1/2) log(x^2+y^2) + i atan2(y, x); sqrt(x^2+y^2)) -- this combination step is the only unverified part of the decision; "
                "undecided points are counted, never passed",
-               "mpci_pow with non-integer exponents and mpci_gamma / rgamma / loggamma / factorial are not covered",
+               "mpci_gamma / rgamma / loggamma / factorial: there is NO verified evaluator of the complex gamma function, so containment is "
+               "NOT decided at arbitrary points.  Only a NECESSARY condition at the closed-form points of the input rectangle is decided "
+               "(harness/iv_cgamma_ops.py): (A) at real integers and half-integers inside the rectangle the exact value ((n-1)!, "
+               "(2n)!/(4^n n!) sqrt(pi) through the verified sqrt / pi / log enclosures) must lie in the returned rectangle (real part in the "
+               "re-interval and 0 in the im-interval; log Gamma only on the positive real axis); (B) at points n + iy and n + 1/2 + iy (dyadic y) "
+               "the returned rectangle must contain a point of modulus |Gamma| given by |Gamma(iy)|^2 = pi/(y sinh(pi y)), "
+               "|Gamma(1/2+iy)|^2 = pi/cosh(pi y) and the recurrence (verified pi / sinh / cosh enclosures, exact rational products; decided "
+               "against the exact minimum / maximum of |w|^2 over the returned rectangle; for loggamma the real part log|Gamma| must be in the "
+               "re-interval); (C) a pole strictly inside forces the whole plane; plus a STEERED stream for loggamma (corner on a closed-form line "
+               "with log|Gamma| 2^-21..2^-100 ulp next to a grid number, chosen with mp, decided as in (B)).  A wrong enclosure that still passes (A)-(C) is not detected; "
+               "rectangles without a point with Re z in (1/2)Z are generated but decide nothing",
+               "mpci_pow with non-integer exponents is not covered",
                "mpmath's mp context is used only to steer the generators, never in a decision"]
 
 
 def run(ctx):
     res = _civ.run_civ(ctx, "C15", CI.CI_OPS + ["malformed"], 30000, 1000000)
-    return IVF.merge_into(res, IVF.run_ivfun(ctx, "C15"))
+    res = IVF.merge_into(res, IVF.run_ivfun(ctx, "C15"))
+    res["coverage"]["ivfun_cgamma_rule"] = iv_cgamma_ops.RULE
+    return res
